@@ -136,6 +136,7 @@ Next ==
      \/ \E P \in NonEmpty(Pkgs), tg \in Tags : Show(P, tg)
 NextDiff == (MaxHist = 0 \/ Len(hist) < MaxHist) /\ \E P \in NonEmpty(Pkgs), hdr \in Headers, tg \in Tags : Diff(P, hdr, tg)
 NextGen  == (MaxHist = 0 \/ Len(hist) < MaxHist) /\ \E P \in NonEmpty(Pkgs), hdr \in Headers, x \in Prefixes, tg \in Tags : Gen(P, hdr, x, tg, "gen")
+NextCheck == (MaxHist = 0 \/ Len(hist) < MaxHist) /\ \E P \in NonEmpty(Pkgs), tg \in Tags : Check(P, tg) \/ Show(P, tg)
 \* gen immediately followed by the matching diff (C18's last clause), from every focused state
 NextGenDiff == /\ Len(hist) < MaxHist
                /\ IF hist = <<>> THEN \E P \in NonEmpty(Pkgs), hdr \in {"none", "ok"}, tg \in Tags : Gen(P, hdr, "std", tg, "gen")
